@@ -238,6 +238,7 @@ func c03Exec(c *engine.Ctx, cs c03Case, _ *engine.ExploreStats) {
 		}
 		// the bytes returned by Marshal belong to the caller: later encoder calls must not change them
 		if p, _ := engine.Guard(func() {
+			c03Marshal(c03ShortGeom, cs) // shorter than any other encoding: overwrites a reused buffer in place
 			c03Marshal(c03OtherGeom, cs)
 			c03Marshal(c03OtherGeom, cs)
 		}); p == nil && !bytes.Equal(got, want) {
@@ -266,6 +267,8 @@ func c03Exec(c *engine.Ctx, cs c03Case, _ *engine.ExploreStats) {
 
 // c03OtherGeom is the second geometry of the two-call histories (encode g, keep the result,
 // encode this, look at the kept result again).
+var c03ShortGeom = geom.NewPointFlat(geom.XY, []float64{-123.25, 4567.5})
+
 var c03OtherGeom = geom.NewLineStringFlat(geom.XY, []float64{-1.5, 2.5, 1e300, -0.0, 77, 88, 99, 111})
 
 func c03Key(cs c03Case) string {
@@ -470,9 +473,11 @@ func c03SQL(c *engine.Ctx, cs c03Case, fail func(what, desc string)) {
 			// sent: a later Value() call (a second geometry argument) must not change it
 			if p, _ := engine.Guard(func() {
 				if cs.Ext {
+					(&ewkb.Point{Point: c03ShortGeom}).Value()
 					(&ewkb.LineString{LineString: c03OtherGeom}).Value()
 					(&ewkb.LineString{LineString: c03OtherGeom}).Value()
 				} else {
+					(&wkb.Point{Point: c03ShortGeom}).Value()
 					(&wkb.LineString{LineString: c03OtherGeom}).Value()
 					(&wkb.LineString{LineString: c03OtherGeom}).Value()
 				}
